@@ -10,7 +10,7 @@ for id in $IDS; do
     [ -f "$p" ] || continue
     if ! git -C /repo apply --check "$PWD/$p" 2>/dev/null; then echo "SKIP  $id $(basename $p) (does not apply)"; rc=1; continue; fi
     git -C /repo apply "$PWD/$p"
-    out=$(./check.sh $id quick 2>&1); st=$?
+    out=$(GOVC_EVIDENCE_DIR=$(mktemp -d) ./check.sh $id quick 2>&1); st=$?
     git -C /repo apply -R "$PWD/$p"
     n=$(echo "$out" | grep -c '^VIOLATION')
     if [ $st -eq 1 ] && [ $n -gt 0 ]; then
